@@ -1,5 +1,1052 @@
 package c14
 
-import "verif/harness/rig/run"
+// Concurrent histories: 2–4 goroutines operate on ONE real BasicConnMgr inside a synctest bubble
+// (bubble goroutines run truly in parallel; synctest.Wait() gives exact quiescence between rounds).
+//
+//   - counts/tag totals "under any interleaving with trims": every Connected/Disconnected/TagPeer/
+//     UntagPeer/UpsertTag/decaying bump/decay round/GetTagInfo is recorded with call/return stamps
+//     from one atomic logical clock, per peer, and the per-peer histories are checked for
+//     linearizability against the per-peer counter model with porcupine (timeout => inconclusive);
+//     at every quiescent point GetInfo().ConnCount must equal the sum of the per-peer conn sets.
+//   - trims are judged against the INTERVAL they ran in: a complaint is raised only when it holds for
+//     every instant/linearization of that interval (definitely protected, definitely inside grace,
+//     peers that nobody touched since the last quiescent point, ...).
 
-func concurrent(r *run.R, race bool) {}
+import (
+	"context"
+	"fmt"
+	"math/bits"
+	"math/rand/v2"
+	"runtime"
+	"sort"
+	"sync"
+	"sync/atomic"
+	"testing/synctest"
+	"time"
+
+	"github.com/anishathalye/porcupine"
+	coreconnmgr "github.com/libp2p/go-libp2p/core/connmgr"
+)
+
+// signature of the one known shape in which a trim closes a peer inside its grace period: the peer had
+// only a buffered tag record when the trim scanned its candidates and connected before the selection.
+const sigConnectedDuringTrim = "conc-trim:closed-in-grace:connected-during-trim-on-buffered-record"
+
+// ---- per-peer sequential specification (porcupine) ----
+
+const (
+	kConn = iota
+	kDisc
+	kTag
+	kUntag
+	kUpsert
+	kBump
+	kDecay
+	kGet
+	kMayDrop
+)
+
+var kName = []string{"Connected", "Disconnected", "TagPeer", "UntagPeer", "UpsertTag", "Bump", "Decay", "GetTagInfo", "TrimMayDropBuffered"}
+
+// pstate: what the notifications and tag operations delivered so far imply for ONE peer
+// (an absent tag and a tag with value 0 are the same state: only totals are stated).
+type pstate struct {
+	conns uint64 // bit i: the peer's i-th conn is tracked
+	tags  [3]int32
+	dec   [2]int32
+}
+
+type pin struct {
+	kind int
+	conn int // kConn/kDisc: local conn index
+	tag  int
+	v    int // value / delta / amount
+	seen int // kBump/kDecay: the tag's value the manager passed to the bump/decay function
+}
+
+type pout struct {
+	isNil  bool
+	value  int
+	tags   [3]int32
+	dec    [2]int32
+	nconns int
+	alien  bool // a tag name nobody set
+}
+
+func specFor(cfg caseCfg) porcupine.Model {
+	nm := porcupine.NondeterministicModel{
+		Init: func() []interface{} { return []interface{}{pstate{}} },
+		Step: func(state, input, output interface{}) []interface{} {
+			s, in := state.(pstate), input.(pin)
+			switch in.kind {
+			case kConn:
+				s.conns |= 1 << uint(in.conn)
+			case kDisc:
+				if s.conns&(1<<uint(in.conn)) != 0 {
+					s.conns &^= 1 << uint(in.conn)
+					if s.conns == 0 {
+						s = pstate{} // the episode ends: the peer's record goes with its last connection
+					}
+				}
+			case kTag:
+				s.tags[in.tag] = int32(in.v)
+			case kUntag:
+				s.tags[in.tag] = 0
+			case kUpsert:
+				s.tags[in.tag] += int32(in.v)
+			case kBump:
+				if int(s.dec[in.tag]) != in.seen {
+					return nil
+				}
+				s.dec[in.tag] = int32(clamp(in.seen+in.v, 0, cfg.BumpMax))
+			case kDecay:
+				if int(s.dec[in.tag]) != in.seen {
+					return nil
+				}
+				a := in.seen - cfg.DecSub[in.tag]
+				if a <= 0 {
+					a = 0
+				}
+				s.dec[in.tag] = int32(a)
+			case kGet:
+				o := output.(pout)
+				if o.isNil {
+					if s != (pstate{}) {
+						return nil
+					}
+					return []interface{}{s}
+				}
+				sum := 0
+				for _, v := range s.tags {
+					sum += int(v)
+				}
+				for _, v := range s.dec {
+					sum += int(v)
+				}
+				if o.alien || o.tags != s.tags || o.dec != s.dec || o.value != sum || o.nconns != bits.OnesCount64(s.conns) {
+					return nil
+				}
+			case kMayDrop:
+				// an ordinary trim may drop the buffered record of an unconnected peer
+				if s.conns == 0 && s != (pstate{}) {
+					return []interface{}{s, pstate{}}
+				}
+			}
+			return []interface{}{s}
+		},
+		DescribeOperation: func(input, output interface{}) string {
+			in := input.(pin)
+			d := fmt.Sprintf("%s(conn=%d tag=%d v=%d seen=%d)", kName[in.kind], in.conn, in.tag, in.v, in.seen)
+			if in.kind == kGet {
+				d += fmt.Sprintf(" -> %+v", output.(pout))
+			}
+			return d
+		},
+	}
+	return nm.ToModel()
+}
+
+// ---- recording ----
+
+type hop struct {
+	Peer    int   `json:"peer"`
+	Kind    int   `json:"kind"`
+	Conn    int   `json:"conn,omitempty"`
+	Tag     int   `json:"tag,omitempty"`
+	V       int   `json:"v,omitempty"`
+	Seen    int   `json:"seen,omitempty"`
+	Out     *pout `json:"-"`
+	OutS    string `json:"out,omitempty"`
+	Call    int64 `json:"call"`
+	Ret     int64 `json:"ret"`
+	W       int   `json:"w"` // worker index, -1 main, -2 manager-internal (decayer), -3 echo from a trim
+	ClockB  int64 `json:"clock_b,omitempty"`
+	ClockA  int64 `json:"clock_a,omitempty"`
+	TrimIdx int   `json:"trim_idx"` // echo Disconnected: the trim that closed the conn (-1 otherwise)
+}
+
+type trimOp struct {
+	Idx    int          `json:"idx"`
+	Kind   string       `json:"kind"` // explicit | force | background
+	Gid    int64        `json:"gid"`
+	W      int          `json:"w"`
+	Call   int64        `json:"call"`
+	Ret    int64        `json:"ret"`
+	ClockC int64        `json:"clock_before_ms"`
+	Tick   bool         `json:"tick,omitempty"` // background: the clock step ended on a silence-period tick
+	Events []closeEvent `json:"closes,omitempty"`
+}
+
+type protOp struct {
+	Peer, Tag int
+	Set       bool
+	Call, Ret int64
+}
+
+type snap struct {
+	Stamp  int64
+	Count  int
+	Val    [nPeers]int
+	NConns [nPeers]int
+	Conns  [nPeers][]int // conn ids tracked
+	Prot   [nPeers][2]bool
+}
+
+type wlog struct {
+	w     int
+	gid   int64
+	hops  []hop
+	trims []trimOp
+	prots []protOp
+}
+
+type concCase struct {
+	Cfg     caseCfg  `json:"config"`
+	Setup   []op     `json:"setup"`
+	Rounds  [][][]op `json:"rounds"`  // round -> worker -> ops
+	Between [][]op   `json:"between"` // ops of the main goroutine after each round
+}
+
+type concResult struct {
+	complaints []complaint
+	inconcl    string
+	counts     map[string]int
+	overlaps   int
+	detail     map[string]any
+}
+
+type concRun struct {
+	g        *rig
+	cc       concCase
+	res      *concResult
+	main     *wlog
+	logs     []*wlog
+	hookMu   sync.Mutex
+	hookHops []hop
+	bumpSeq  atomic.Int64
+	bumpMu   sync.Mutex
+	bumpCall map[int]hop // bump id -> partially filled hop (Call stamp, peer, tag, amount)
+	connMu   sync.Mutex
+	connByAd map[string]*fakeConn
+	snaps    []snap
+	protM    [nPeers][2]bool
+	gids     map[int64]int
+	gidMu    sync.Mutex
+}
+
+func peerIndex(id string) int {
+	for i, p := range peerIDs {
+		if string(p) == id {
+			return i
+		}
+	}
+	return -1
+}
+
+func tagIndex(names []string, n string) int {
+	for i, t := range names {
+		if t == n {
+			return i
+		}
+	}
+	return -1
+}
+
+func (x *concRun) outOf(ti *coreconnmgr.TagInfo) *pout {
+	if ti == nil {
+		return &pout{isNil: true}
+	}
+	o := &pout{value: ti.Value, nconns: len(ti.Conns)}
+	for k, v := range ti.Tags {
+		if i := tagIndex(plainTags, k); i >= 0 {
+			o.tags[i] = int32(v)
+		} else if i := tagIndex(decTags, k); i >= 0 {
+			o.dec[i] = int32(v)
+		} else {
+			o.alien = true
+		}
+	}
+	return o
+}
+
+// exec performs one generated operation on behalf of worker w and records it at the API boundary
+// (call stamp before invoking, return stamp after).
+func (x *concRun) exec(w *wlog, o op, inRound bool) {
+	g, rec := x.g, x.g.rec
+	nf := rec.notifee
+	pid := peerIDs[o.P]
+	switch o.K {
+	case "conn":
+		fc, fresh := g.connFor(o, nil)
+		if fc.lidx >= 64 {
+			fc.closed.Store(true)
+			return
+		}
+		if fresh {
+			x.connMu.Lock()
+			x.connByAd[fc.addr.String()] = fc
+			x.connMu.Unlock()
+		}
+		h := hop{Peer: o.P, Kind: kConn, Conn: fc.lidx, W: w.w, TrimIdx: -1, ClockB: g.nowMs()}
+		h.Call = rec.tick()
+		nf.Connected(nil, fc)
+		h.Ret = rec.tick()
+		h.ClockA = g.nowMs()
+		w.hops = append(w.hops, h)
+	case "disc":
+		fc := g.slots[o.P][o.S]
+		if fc == nil || fc.lidx >= 64 {
+			return
+		}
+		fc.closed.Store(true)
+		h := hop{Peer: o.P, Kind: kDisc, Conn: fc.lidx, W: w.w, TrimIdx: -1}
+		h.Call = rec.tick()
+		nf.Disconnected(nil, fc)
+		h.Ret = rec.tick()
+		w.hops = append(w.hops, h)
+	case "flush":
+		rec.mu.Lock()
+		var fc *fakeConn
+		if n := len(rec.pending); n > 0 {
+			i := o.V % n
+			fc = rec.pending[i]
+			rec.pending = append(rec.pending[:i], rec.pending[i+1:]...)
+		}
+		rec.mu.Unlock()
+		if fc != nil {
+			h := hop{Peer: fc.peer, Kind: kDisc, Conn: fc.lidx, W: w.w, TrimIdx: -1}
+			h.Call = rec.tick()
+			nf.Disconnected(nil, fc)
+			h.Ret = rec.tick()
+			w.hops = append(w.hops, h)
+		}
+	case "streams":
+		if fc := g.slots[o.P][o.S]; fc != nil {
+			fc.streams.Store(int32(o.Streams))
+		}
+	case "tag", "untag", "upsert":
+		h := hop{Peer: o.P, Tag: tagIndex(plainTags, o.Tag), V: o.V, W: w.w, TrimIdx: -1}
+		h.Call = rec.tick()
+		switch o.K {
+		case "tag":
+			h.Kind = kTag
+			g.cm.TagPeer(pid, o.Tag, o.V)
+		case "untag":
+			h.Kind = kUntag
+			g.cm.UntagPeer(pid, o.Tag)
+		default:
+			h.Kind = kUpsert
+			g.cm.UpsertTag(pid, o.Tag, func(v int) int {
+				if o.V%2 == 0 {
+					runtime.Gosched() // the callback runs under the peer's segment lock: widen the window
+				}
+				return v + o.V
+			})
+		}
+		h.Ret = rec.tick()
+		w.hops = append(w.hops, h)
+	case "bump":
+		id := int(x.bumpSeq.Add(1))
+		h := hop{Peer: o.P, Kind: kBump, Tag: decIndex(o.Tag), V: o.V, W: w.w, TrimIdx: -1}
+		x.bumpMu.Lock()
+		h.Call = rec.tick()
+		x.bumpCall[id] = h
+		x.bumpMu.Unlock()
+		if err := g.dtags[decIndex(o.Tag)].Bump(pid, bumpDelta(id, o.V)); err != nil {
+			x.bumpMu.Lock()
+			delete(x.bumpCall, id) // queue full: the bump was refused, nothing was delivered
+			x.bumpMu.Unlock()
+		}
+	case "protect", "unprotect":
+		p := protOp{Peer: o.P, Tag: tagIndex(protTags, o.Tag), Set: o.K == "protect"}
+		p.Call = rec.tick()
+		if p.Set {
+			g.cm.Protect(pid, o.Tag)
+		} else {
+			g.cm.Unprotect(pid, o.Tag)
+		}
+		p.Ret = rec.tick()
+		w.prots = append(w.prots, p)
+	case "get":
+		h := hop{Peer: o.P, Kind: kGet, W: w.w, TrimIdx: -1}
+		h.Call = rec.tick()
+		ti := g.cm.GetTagInfo(pid)
+		h.Ret = rec.tick()
+		h.Out = x.outOf(ti)
+		w.hops = append(w.hops, h)
+	case "trim", "force":
+		t := trimOp{Kind: "explicit", Gid: w.gid, W: w.w, ClockC: g.nowMs()}
+		t.Call = rec.tick()
+		if o.K == "trim" {
+			g.cm.TrimOpenConns(context.Background())
+		} else {
+			t.Kind = "force"
+			g.cm.ForceTrim()
+		}
+		t.Ret = rec.tick()
+		w.trims = append(w.trims, t)
+	case "step":
+		// stop at every tick instant of the manager's tickers (see seqRun.step); each sub-step is one
+		// potential periodic trim. Only one goroutine steps the clock at a time.
+		cfg := g.cfg
+		now := g.nowMs()
+		target := now + o.Ms
+		for now < target {
+			next := target
+			for _, per := range []int64{cfg.SilenceMs, cfg.ResMs} {
+				if t := (now/per + 1) * per; t < next {
+					next = t
+				}
+			}
+			t := trimOp{Kind: "background", Gid: -1, W: w.w, ClockC: now, Tick: next%cfg.SilenceMs == 0}
+			t.Call = rec.tick()
+			g.clk.Add(time.Duration(next-now) * time.Millisecond)
+			if !inRound {
+				synctest.Wait()
+			}
+			t.Ret = rec.tick()
+			w.trims = append(w.trims, t)
+			now = next
+		}
+	}
+}
+
+func (x *concRun) bumpHook(v coreconnmgr.DecayingValue, delta int) {
+	id := bumpID(delta)
+	x.bumpMu.Lock()
+	h, ok := x.bumpCall[id]
+	delete(x.bumpCall, id)
+	x.bumpMu.Unlock()
+	if !ok {
+		return
+	}
+	h.Seen = v.Value
+	h.Ret = x.g.rec.tick() // inside the critical section in which the bump takes effect
+	x.hookMu.Lock()
+	x.hookHops = append(x.hookHops, h)
+	x.hookMu.Unlock()
+}
+
+func (x *concRun) decayHook(v coreconnmgr.DecayingValue) {
+	h := hop{Peer: peerIndex(string(v.Peer)), Kind: kDecay, Tag: tagIndex(decTags, v.Tag.Name()), Seen: v.Value, W: -2, TrimIdx: -1}
+	h.Call = x.g.rec.tick() // both stamps inside the critical section in which the decay takes effect
+	h.Ret = x.g.rec.tick()
+	x.hookMu.Lock()
+	x.hookHops = append(x.hookHops, h)
+	x.hookMu.Unlock()
+}
+
+// quiesce: exact quiescent point. Reads the whole observable state (the reads are part of the
+// per-peer histories) and checks the global count against the per-peer conn sets.
+func (x *concRun) quiesce() {
+	synctest.Wait()
+	g := x.g
+	var s snap
+	s.Count = g.cm.GetInfo().ConnCount
+	sum := 0
+	for p := range peerIDs {
+		h := hop{Peer: p, Kind: kGet, W: -1, TrimIdx: -1}
+		h.Call = g.rec.tick()
+		ti := g.cm.GetTagInfo(peerIDs[p])
+		h.Ret = g.rec.tick()
+		h.Out = x.outOf(ti)
+		x.main.hops = append(x.main.hops, h)
+		if ti != nil {
+			s.Val[p], s.NConns[p] = ti.Value, len(ti.Conns)
+			vsum := 0
+			for _, v := range ti.Tags {
+				vsum += v
+			}
+			if vsum != ti.Value {
+				x.res.complaints = append(x.res.complaints, complaint{"conc-tags:value-not-sum", fmt.Sprintf("quiescent GetTagInfo(p%d).Value = %d but its Tags %v sum to %d", p, ti.Value, ti.Tags, vsum)})
+			}
+			x.connMu.Lock()
+			for a := range ti.Conns {
+				if fc := x.connByAd[a]; fc != nil {
+					s.Conns[p] = append(s.Conns[p], fc.id)
+				}
+			}
+			x.connMu.Unlock()
+			sum += len(ti.Conns)
+		}
+		for t := range protTags {
+			s.Prot[p][t] = g.cm.IsProtected(peerIDs[p], protTags[t])
+			if s.Prot[p][t] != x.protM[p][t] {
+				x.res.complaints = append(x.res.complaints, complaint{"conc-protect:state", fmt.Sprintf("quiescent IsProtected(p%d,%s) = %v, protect operations imply %v", p, protTags[t], s.Prot[p][t], x.protM[p][t])})
+			}
+		}
+	}
+	// "The manager's connection count ... always equal[s] what the notifications delivered so far imply"
+	if s.Count != sum {
+		x.res.complaints = append(x.res.complaints, complaint{"conc-count:conncount", fmt.Sprintf("quiescent GetInfo().ConnCount = %d but the peers' tracked conn sets hold %d (each set is checked against the notification history)", s.Count, sum)})
+	}
+	s.Stamp = g.rec.tick()
+	x.snaps = append(x.snaps, s)
+}
+
+func (x *concRun) applyProt(ops []op) {
+	for _, o := range ops {
+		if o.K == "protect" || o.K == "unprotect" {
+			x.protM[o.P][tagIndex(protTags, o.Tag)] = o.K == "protect"
+		}
+	}
+}
+
+func runConc(cc concCase) *concResult {
+	res := &concResult{counts: map[string]int{}}
+	x := &concRun{cc: cc, res: res, main: &wlog{w: -1, gid: goid()}, bumpCall: map[int]hop{}, connByAd: map[string]*fakeConn{}, gids: map[int64]int{}}
+	g, err := newRig(cc.Cfg, true, x.bumpHook, x.decayHook)
+	if err != nil {
+		res.inconcl = err.Error()
+		return res
+	}
+	x.g = g
+	x.gids[x.main.gid] = -1
+	x.logs = append(x.logs, x.main)
+	defer func() {
+		g.cm.Close()
+		synctest.Wait()
+	}()
+	x.quiesce()
+	for _, o := range cc.Setup {
+		x.exec(x.main, o, false)
+		x.applyProt([]op{o})
+		x.quiesce()
+	}
+	for ri, round := range cc.Rounds {
+		var wg sync.WaitGroup
+		start := make(chan struct{})
+		for wi, ops := range round {
+			w := &wlog{w: wi}
+			x.logs = append(x.logs, w)
+			wg.Add(1)
+			go func() {
+				defer wg.Done()
+				w.gid = goid()
+				x.gidMu.Lock()
+				x.gids[w.gid] = w.w
+				x.gidMu.Unlock()
+				<-start
+				for _, o := range ops {
+					x.exec(w, o, true)
+				}
+			}()
+		}
+		close(start)
+		wg.Wait()
+		for _, ops := range round {
+			x.applyProt(ops) // each (peer, protection tag) has a single owner per round: program order decides
+		}
+		x.quiesce()
+		for _, o := range cc.Between[ri] {
+			x.exec(x.main, o, false)
+			x.applyProt([]op{o})
+			x.quiesce()
+		}
+	}
+	x.analyse()
+	return res
+}
+
+// ---- analysis ----
+
+func overlap(aC, aR, bC, bR int64) bool { return aC < bR && bC < aR }
+
+func (x *concRun) analyse() {
+	res, cfg := x.res, x.cc.Cfg
+	var hops []hop
+	var trims []trimOp
+	var prots []protOp
+	for _, w := range x.logs {
+		hops = append(hops, w.hops...)
+		trims = append(trims, w.trims...)
+		prots = append(prots, w.prots...)
+	}
+	hops = append(hops, x.hookHops...)
+	if len(x.bumpCall) > 0 {
+		res.inconcl = fmt.Sprintf("%d queued bump(s) never reached the bump function", len(x.bumpCall))
+		return
+	}
+	sort.Slice(trims, func(i, j int) bool { return trims[i].Call < trims[j].Call })
+	for i := range trims {
+		trims[i].Idx = i
+	}
+	// attribute every close to the trim that issued it (same goroutine for explicit/forced trims, a
+	// manager goroutine inside a clock step for the periodic trim)
+	events := x.g.rec.takeEvents()
+	for _, e := range events {
+		_, ours := x.gids[e.Gid]
+		found := -1
+		for i := range trims {
+			t := &trims[i]
+			if t.Call < e.Stamp && e.Stamp < t.Ret && ((ours && t.Kind != "background" && t.Gid == e.Gid) || (!ours && t.Kind == "background")) {
+				found = i
+				break
+			}
+		}
+		if found < 0 {
+			res.complaints = append(res.complaints, complaint{"conc-trim:close-outside-trim", fmt.Sprintf("manager closed conn #%d of p%d outside any trim call or clock step", e.Conn, e.Peer)})
+			continue
+		}
+		trims[found].Events = append(trims[found].Events, e)
+		if e.Echoed {
+			lidx := -1
+			x.connMu.Lock()
+			for _, fc := range x.connByAd {
+				if fc.id == e.Conn {
+					lidx = fc.lidx
+				}
+			}
+			x.connMu.Unlock()
+			hops = append(hops, hop{Peer: e.Peer, Kind: kDisc, Conn: lidx, W: -3, Call: e.EchoC, Ret: e.EchoR, TrimIdx: found})
+		}
+		res.counts["conc_closes"]++
+	}
+	sort.Slice(hops, func(i, j int) bool { return hops[i].Call < hops[j].Call })
+	var byPeer [nPeers][]hop
+	for _, h := range hops {
+		byPeer[h.Peer] = append(byPeer[h.Peer], h)
+	}
+	mutating := func(k int) bool { return k != kGet && k != kMayDrop }
+
+	// how much real overlap did the schedule produce?
+	for p := range byPeer {
+		hs := byPeer[p]
+		for i := range hs {
+			for j := i + 1; j < len(hs) && hs[j].Call < hs[i].Ret; j++ {
+				if hs[i].W != hs[j].W && (mutating(hs[i].Kind) || mutating(hs[j].Kind)) {
+					res.overlaps++
+				}
+			}
+		}
+	}
+	for _, t := range trims {
+		if t.Kind == "background" && len(t.Events) == 0 {
+			continue
+		}
+		for _, h := range hops {
+			if mutating(h.Kind) && h.TrimIdx != t.Idx && overlap(h.Call, h.Ret, t.Call, t.Ret) {
+				res.counts["conc_ops_overlapping_a_trim"]++
+				res.overlaps++
+			}
+		}
+		for _, o := range trims {
+			if o.Idx > t.Idx && overlap(o.Call, o.Ret, t.Call, t.Ret) && (o.Kind != "background" || len(o.Events) > 0) {
+				res.counts["conc_trims_overlapping_trims"]++
+				res.overlaps++
+			}
+		}
+	}
+	res.counts["conc_overlapping_op_pairs"] += res.overlaps
+
+	x.judgeTrims(trims, byPeer, prots)
+
+	// per-peer linearizability of the counter/tag histories
+	spec := specFor(cfg)
+	for p := range byPeer {
+		var ops []porcupine.Operation
+		for _, h := range byPeer[p] {
+			if (h.Kind == kConn || h.Kind == kDisc) && h.Conn < 0 {
+				continue
+			}
+			var out interface{}
+			if h.Out != nil {
+				out = *h.Out
+			}
+			ops = append(ops, porcupine.Operation{ClientId: h.W + 3, Input: pin{kind: h.Kind, conn: h.Conn, tag: h.Tag, v: h.V, seen: h.Seen}, Output: out, Call: h.Call, Return: h.Ret})
+		}
+		for _, t := range trims {
+			if t.Kind == "explicit" || (t.Kind == "background" && t.Tick) {
+				ops = append(ops, porcupine.Operation{ClientId: 20 + t.W, Input: pin{kind: kMayDrop}, Call: t.Call, Return: t.Ret})
+			}
+		}
+		res.counts["porcupine_ops"] += len(ops)
+		switch porcupine.CheckOperationsTimeout(spec, ops, 5*time.Second) {
+		case porcupine.Ok:
+			res.counts["porcupine_ok"]++
+		case porcupine.Unknown:
+			res.counts["porcupine_unknown"]++
+			res.inconcl = fmt.Sprintf("porcupine timed out on peer %d (%d ops)", p, len(ops))
+		case porcupine.Illegal:
+			res.counts["porcupine_illegal"]++
+			hs := byPeer[p]
+			for i := range hs {
+				if hs[i].Out != nil {
+					hs[i].OutS = fmt.Sprintf("%+v", *hs[i].Out)
+				}
+			}
+			res.complaints = append(res.complaints, complaint{"conc-linearizability:peer-history", fmt.Sprintf("history of peer %d (%d ops) is not linearizable against the per-peer count/tag model", p, len(ops))})
+			if res.detail == nil {
+				res.detail = map[string]any{}
+			}
+			res.detail[fmt.Sprintf("history_p%d", p)] = describeHops(hs)
+		}
+	}
+	if len(res.complaints) > 0 {
+		if res.detail == nil {
+			res.detail = map[string]any{}
+		}
+		res.detail["trims"] = trims
+	}
+}
+
+func describeHops(hs []hop) []string {
+	out := make([]string, len(hs))
+	for i, h := range hs {
+		out[i] = fmt.Sprintf("[%d,%d] w%d %s conn=%d tag=%d v=%d seen=%d %s", h.Call, h.Ret, h.W, kName[h.Kind], h.Conn, h.Tag, h.V, h.Seen, h.OutS)
+	}
+	return out
+}
+
+// judgeTrims: interval rules. Q is the last quiescent snapshot before the trim; a peer is STABLE for a
+// trim if nothing touched it between Q and the end of the trim (then its value, conns, protection at
+// the trim's instant are those of Q).
+func (x *concRun) judgeTrims(trims []trimOp, byPeer [nPeers][]hop, prots []protOp) {
+	res, cfg := x.res, x.cc.Cfg
+	low, grace := cfg.Low, cfg.GraceMs
+	complain := func(sig, msg string) { res.complaints = append(res.complaints, complaint{sig, msg}) }
+	for ti := range trims {
+		t := &trims[ti]
+		if t.Kind == "background" && len(t.Events) == 0 {
+			continue
+		}
+		qi := -1
+		for i, s := range x.snaps {
+			if s.Stamp < t.Call {
+				qi = i
+			}
+		}
+		if qi < 0 {
+			continue
+		}
+		Q := &x.snaps[qi]
+		touched := func(p int) bool {
+			for _, h := range byPeer[p] {
+				if h.Kind != kGet && h.TrimIdx != t.Idx && h.Ret > Q.Stamp && h.Call < t.Ret {
+					return true
+				}
+			}
+			for _, pr := range prots {
+				if pr.Peer == p && pr.Ret > Q.Stamp && pr.Call < t.Ret {
+					return true
+				}
+			}
+			return false
+		}
+		// bounds on the episode start (clock readings around the Connected notifications since the last
+		// quiescent point at which the peer had no connection)
+		since := func(p int, before int64) (lb, ub int64, ok bool) {
+			z := int64(0)
+			for i := qi; i >= 0; i-- {
+				if x.snaps[i].NConns[p] == 0 {
+					z = x.snaps[i].Stamp
+					break
+				}
+			}
+			lb, ub = 1<<62, -1
+			for _, h := range byPeer[p] {
+				if h.Kind == kConn && h.Ret > z && h.Call < before {
+					ok = true
+					lb, ub = min(lb, h.ClockB), max(ub, h.ClockA)
+				}
+			}
+			return
+		}
+		defProtected := func(p int, upto int64) bool {
+			for tg := range protTags {
+				if !Q.Prot[p][tg] {
+					continue
+				}
+				cleared := false
+				for _, pr := range prots {
+					if pr.Peer == p && pr.Tag == tg && !pr.Set && pr.Ret > Q.Stamp && pr.Call < upto {
+						cleared = true
+					}
+				}
+				if !cleared {
+					return true
+				}
+			}
+			return false
+		}
+		defUnprotected := func(p int) bool {
+			if Q.Prot[p][0] || Q.Prot[p][1] {
+				return false
+			}
+			for _, pr := range prots {
+				if pr.Peer == p && pr.Set && pr.Ret > Q.Stamp && pr.Call < t.Ret {
+					return false
+				}
+			}
+			return true
+		}
+		maxCount, minCount := Q.Count, Q.Count
+		for p := range byPeer {
+			for _, h := range byPeer[p] {
+				if h.Ret > Q.Stamp && h.Call < t.Ret {
+					if h.Kind == kConn {
+						maxCount++
+					} else if h.Kind == kDisc && h.TrimIdx != t.Idx {
+						minCount--
+					}
+				}
+			}
+		}
+		// while tag values change, the manager's sort runs on a moving order: the order clause is judged
+		// only for trims during which no tag operation was in flight; the count clause only when no
+		// Connected notification arrived since the last quiescent point (connections can then only go)
+		valuesConstant := true
+		for p := range byPeer {
+			for _, h := range byPeer[p] {
+				if h.Kind >= kTag && h.Kind <= kDecay && overlap(h.Call, h.Ret, t.Call, t.Ret) {
+					valuesConstant = false
+				}
+			}
+		}
+		noNewConns := maxCount == Q.Count
+		attempted := map[int]bool{}
+		hit := map[int]int{}
+		for _, e := range t.Events {
+			attempted[e.Conn] = true
+			hit[e.Peer]++
+		}
+		ran := true
+		if t.Kind == "explicit" {
+			// TrimOpenConns may return without trimming when another trim completed while it waited
+			for _, o := range trims {
+				if o.Idx != t.Idx && o.Kind != "background" && overlap(o.Call, o.Ret, t.Call, t.Ret) {
+					ran = false
+				}
+			}
+		}
+		res.counts["conc_"+t.Kind+"_trims"]++
+		if len(t.Events) > 0 {
+			res.counts["conc_"+t.Kind+"_trims_that_closed"]++
+		}
+		var stable [nPeers]bool
+		nStable := 0
+		for p := range peerIDs {
+			stable[p] = !touched(p)
+			if stable[p] {
+				nStable++
+			}
+		}
+		res.counts["conc_stable_peers_at_trims"] += nStable
+		res.counts["conc_unstable_peers_at_trims"] += nPeers - nStable
+		openAfter := func(p int) int {
+			k := 0
+			for _, c := range Q.Conns[p] {
+				if !attempted[c] {
+					k++
+				}
+			}
+			return k
+		}
+		// "does nothing when the connection count is at or below the low watermark"
+		if len(t.Events) > 0 && maxCount <= low {
+			complain("conc-"+t.Kind+":closed-at-or-below-low", fmt.Sprintf("%s trim #%d closed %s although the connection count cannot have exceeded %d (low %d)", t.Kind, t.Idx, evString(t.Events), maxCount, low))
+		}
+		if t.Kind != "force" {
+			for _, e := range t.Events {
+				// "never closes a connection of a protected peer"
+				if defProtected(e.Peer, e.Stamp) {
+					complain("conc-trim:closed-protected", fmt.Sprintf("%s trim #%d closed conn #%d of p%d which was protected during the whole trim", t.Kind, t.Idx, e.Conn, e.Peer))
+				}
+				// "... or of a peer still inside its grace period"
+				if lb, _, ok := since(e.Peer, e.Stamp); ok && e.ClockM-lb < grace {
+					sig := "conc-trim:closed-in-grace"
+					// known shape (TOCTOU between the candidate scan and the selection): the peer had only a
+					// buffered tag record when the trim started and its Connected arrived during the trim
+					if Q.NConns[e.Peer] == 0 {
+						during := true
+						for _, h := range byPeer[e.Peer] {
+							if h.Kind == kConn && h.Ret > Q.Stamp && h.Ret < t.Call {
+								during = false
+							}
+						}
+						if during {
+							sig = sigConnectedDuringTrim
+						}
+					}
+					complain(sig, fmt.Sprintf("%s trim #%d closed conn #%d of p%d at most %d ms after the peer connected (grace %d ms)", t.Kind, t.Idx, e.Conn, e.Peer, e.ClockM-lb, grace))
+				}
+			}
+			eligible := func(p int) bool { // definitely eligible during the whole trim
+				if !stable[p] || Q.NConns[p] == 0 || !defUnprotected(p) {
+					return false
+				}
+				_, ub, ok := since(p, Q.Stamp)
+				return ok && t.ClockC-ub > grace
+			}
+			left := 0
+			for y := range peerIDs {
+				if !eligible(y) {
+					continue
+				}
+				res.counts["conc_definitely_eligible_peers_at_trims"]++
+				left += openAfter(y)
+				if hit[y] > 0 {
+					continue
+				}
+				// "never closes a peer while a lower-valued eligible peer is kept"
+				for xp := range hit {
+					if !valuesConstant {
+						break
+					}
+					if stable[xp] && Q.Val[y] < Q.Val[xp] {
+						complain("conc-trim:kept-lower-valued-eligible", fmt.Sprintf("%s trim #%d closed p%d (value %d) but kept eligible p%d (value %d); nobody touched either peer since the last quiescent point", t.Kind, t.Idx, xp, Q.Val[xp], y, Q.Val[y]))
+					}
+					res.counts["conc_order_pairs_judged"]++
+				}
+			}
+			// "otherwise leaves at most low-watermark connections among the eligible peers"
+			if ran && noNewConns && minCount > low && low > 0 && cfg.High > 0 {
+				res.counts["conc_trims_count_clause_judged"]++
+				if left > low {
+					complain("conc-trim:left-above-low-among-eligible", fmt.Sprintf("%s trim #%d ran with more than %d conns and left %d conns among peers that were eligible during the whole trim (low %d)", t.Kind, t.Idx, low, left, low))
+				}
+			}
+		} else {
+			left := 0
+			for y := range peerIDs {
+				if !stable[y] || Q.NConns[y] == 0 || !defUnprotected(y) {
+					continue
+				}
+				left += openAfter(y)
+				for _, e := range t.Events {
+					// "only a memory-emergency forced trim may close protected peers, and only after all unprotected ones"
+					if defProtected(e.Peer, e.Stamp) && openAfter(y) > 0 {
+						complain("conc-force:closed-protected-before-unprotected", fmt.Sprintf("ForceTrim #%d closed conn #%d of protected p%d while unprotected p%d keeps %d open conn(s)", t.Idx, e.Conn, e.Peer, y, openAfter(y)))
+					}
+				}
+				if hit[y] > 0 {
+					continue
+				}
+				for xp := range hit {
+					if !valuesConstant {
+						break
+					}
+					if stable[xp] && defUnprotected(xp) && Q.Val[y] < Q.Val[xp] {
+						complain("conc-force:kept-lower-valued", fmt.Sprintf("ForceTrim #%d closed unprotected p%d (value %d) but kept unprotected p%d (value %d)", t.Idx, xp, Q.Val[xp], y, Q.Val[y]))
+					}
+					res.counts["conc_order_pairs_judged"]++
+				}
+			}
+			if noNewConns && minCount > low {
+				res.counts["conc_trims_count_clause_judged"]++
+				if left > low {
+					complain("conc-force:left-above-low-among-unprotected", fmt.Sprintf("ForceTrim #%d ran with more than %d conns and left %d conns among unprotected peers (low %d)", t.Idx, low, left, low))
+				}
+			}
+		}
+	}
+}
+
+// ---- generation (a function of the PRNG only) ----
+
+func genConc(rng *rand.Rand) concCase {
+	cc := concCase{Cfg: genCfg(rng)}
+	if cc.Cfg.Low == 0 && rng.IntN(2) == 0 {
+		cc.Cfg.Low, cc.Cfg.High = 2, 4
+	}
+	for i, n := 0, 8+rng.IntN(10); i < n; i++ {
+		switch rng.IntN(8) {
+		case 0:
+			cc.Setup = append(cc.Setup, op{K: "step", Ms: stepsMs[rng.IntN(len(stepsMs))]})
+		case 1:
+			cc.Setup = append(cc.Setup, op{K: "tag", P: rng.IntN(nPeers), Tag: plainTags[rng.IntN(3)], V: rng.IntN(16) - 3})
+		case 2:
+			cc.Setup = append(cc.Setup, op{K: "protect", P: rng.IntN(nPeers), Tag: protTags[rng.IntN(2)]})
+		default:
+			cc.Setup = append(cc.Setup, genConnOp(rng))
+		}
+	}
+	rounds := 3 + rng.IntN(4)
+	for ri := 0; ri < rounds; ri++ {
+		W := 2 + rng.IntN(3)
+		round := make([][]op, W)
+		stepper := -1
+		if rng.IntN(5) < 2 {
+			stepper = rng.IntN(W)
+		}
+		// a round concentrates on a few peers so that operations collide
+		focus := []int{rng.IntN(nPeers), rng.IntN(nPeers), rng.IntN(nPeers)}
+		pickPeer := func() int {
+			if rng.IntN(4) > 0 {
+				return focus[rng.IntN(len(focus))]
+			}
+			return rng.IntN(nPeers)
+		}
+		for w := range round {
+			n := 3 + rng.IntN(5)
+			for len(round[w]) < n {
+				p := pickPeer()
+				var o op
+				switch x := rng.IntN(100); {
+				case x < 18: // conn slots and protection tags have one owner per round
+					o = genConnOp(rng)
+					o.P = p
+					for (o.P*slotsPerPeer+o.S+ri)%W != w {
+						o.S = (o.S + 1) % slotsPerPeer
+						if o.S == 0 {
+							o.P = (o.P + 1) % nPeers
+						}
+					}
+				case x < 28:
+					o = op{K: "disc", P: p, S: rng.IntN(slotsPerPeer)}
+					for (o.P*slotsPerPeer+o.S+ri)%W != w {
+						o.S = (o.S + 1) % slotsPerPeer
+						if o.S == 0 {
+							o.P = (o.P + 1) % nPeers
+						}
+					}
+				case x < 42:
+					o = op{K: "tag", P: p, Tag: plainTags[rng.IntN(3)], V: rng.IntN(16) - 3}
+				case x < 48:
+					o = op{K: "untag", P: p, Tag: plainTags[rng.IntN(3)]}
+				case x < 58:
+					o = op{K: "upsert", P: p, Tag: plainTags[rng.IntN(3)], V: rng.IntN(9) - 2}
+				case x < 64:
+					o = op{K: "bump", P: p, Tag: decTags[rng.IntN(2)], V: rng.IntN(12) - 2}
+				case x < 72:
+					o = op{K: "protect", P: p, Tag: protTags[rng.IntN(2)]}
+					if rng.IntN(2) == 0 {
+						o.K = "unprotect"
+					}
+					pi := o.P*2 + tagIndex(protTags, o.Tag)
+					for (pi+ri)%W != w {
+						pi = (pi + 1) % (2 * nPeers)
+					}
+					o.P, o.Tag = pi/2, protTags[pi%2]
+				case x < 82:
+					o = op{K: "get", P: p}
+				case x < 94:
+					o = op{K: "trim"}
+				default:
+					o = op{K: "force"}
+				}
+				round[w] = append(round[w], o)
+			}
+			if w == stepper {
+				i := rng.IntN(len(round[w]))
+				round[w] = append(round[w][:i], append([]op{{K: "step", Ms: stepsMs[rng.IntN(len(stepsMs))]}}, round[w][i:]...)...)
+			}
+		}
+		cc.Rounds = append(cc.Rounds, round)
+		var bt []op
+		for i, n := 0, rng.IntN(4); i < n; i++ {
+			switch rng.IntN(4) {
+			case 0:
+				bt = append(bt, op{K: "flush", V: rng.IntN(8)})
+			case 1:
+				bt = append(bt, op{K: "step", Ms: stepsMs[rng.IntN(len(stepsMs))]})
+			case 2:
+				bt = append(bt, genConnOp(rng))
+			default:
+				bt = append(bt, op{K: "trim"})
+			}
+		}
+		cc.Between = append(cc.Between, bt)
+	}
+	return cc
+}
